@@ -693,6 +693,16 @@ class Normaliser:
             s = stmts[i]
             i += 1
             if isinstance(s, (ast.FunctionDef, ast.AsyncFunctionDef)):
+                # a default that is an expression over locals is evaluated HERE, when the `def` runs, not at the calls: keep that value in
+                # a temporary of its own (the inliner binds an omitted argument to the default expression at the call site)
+                for j_, d_ in enumerate(list(s.args.defaults)):
+                    if any(isinstance(x, ast.Name) for x in ast.walk(d_)) and not isinstance(d_, ast.Lambda) \
+                            and U(d_).split('.')[0] not in ('np', 'numpy', 'math', 'os', 'sys'):
+                        tmp = self.fresh('dflt')
+                        pre = ast.copy_location(ast.Assign(targets=[ast.Name(id=tmp, ctx=ast.Store())], value=d_), s)
+                        ast.fix_missing_locations(pre)
+                        out.append(pre)
+                        s.args.defaults[j_] = ast.copy_location(ast.Name(id=tmp, ctx=ast.Load()), d_)
                 s.body = self.block(s.body, local_funcs, stack)
                 local_funcs[s.name] = s
                 out.append(s)
